@@ -297,6 +297,12 @@ func runC16(c *Ctx) {
 		m.streamed = true
 		malformed = append(malformed, m)
 	}
+	// media types that are not JSON, with parameters — well-formed, and malformed in the ways a media-type parser reports as
+	// "only the parameters are wrong" (a parser's error path is no licence to skip the comparison of the type itself)
+	for _, ct := range []string{"text/plain; charset=utf-8", "text/plain; charset", "application/yaml; =x", `text/plain; charset="utf-8`, "application/vnd.kubernetes.protobuf;;",
+		"application/xml; q", "application/yaml; charset=utf-8; charset=ascii", "text/json; charset", "application/x-json; a=b; c"} {
+		malformed = append(malformed, mk("non-JSON type with parameters: "+ct, ct, good, true, true, true))
+	}
 	var ops []J
 	for _, m := range malformed {
 		ops = append(ops, J{"op": "webhookClassify", "empty": m.empty, "size": m.size, "contentType": m.ctype, "decodes": m.decodes, "v1review": m.v1review, "hasRequest": m.hasRequest})
